@@ -1,6 +1,8 @@
 CONSTANTS Deep = TRUE
+          Walk = "unfold"
           Size = "wide"
 INIT Init
 NEXT Next
 INVARIANT ResultIsMerge
 INVARIANT OperandsIntact
+INVARIANT UnfoldedLaws
